@@ -183,7 +183,9 @@ func (c *Ctx) stage2(dir string, ocs []*Outcome) {
 			src := hdr.String() + body.String()
 			os.WriteFile(filepath.Join(s2, file), []byte(src), 0o644)
 		}
-		bl := c.Go(dir, "build", "-o", "s2bin", "./cmd/s2")
+		// no optimisation, no inlining for the stage-2 package: its thousands of literal-building closures
+		// make the optimising compiler need gigabytes
+		bl := c.Go(dir, "build", "-gcflags=-N -l", "-o", "s2bin", "./cmd/s2")
 		if bl.Exit == 0 {
 			break
 		}
